@@ -74,7 +74,12 @@ def engine_cases(
     if foreign and file_toks:
         for f in range(draw(st.integers(0, 2)) if chance(draw, 60) else 0):
             ti = draw(st.sampled_from(file_toks))
-            extras.append(["facq", f, ti, draw(st.integers(1, toks[ti]["total"])), draw(st.booleans()), draw(st.booleans())])
+            dies = draw(st.booleans())
+            extras.append(["facq", f, ti, draw(st.integers(1, toks[ti]["total"])), draw(st.booleans()), dies])
+            if len(file_toks) > 1 and chance(draw, 50):
+                # the same foreign job also holds the other file token
+                tj = [t for t in file_toks if t != ti][0]
+                extras.append(["facq", f, tj, draw(st.integers(1, toks[tj]["total"])), draw(st.booleans()), dies])
         if chance(draw, 25):
             extras.append(["fopen", draw(st.sampled_from(file_toks)), draw(st.booleans())])
     for e in extras:
